@@ -570,7 +570,7 @@ func checkC01(c *run.Ctx) {
 	c01Witnesses(c, all)
 	n := c.N(1200, 100000)
 	c.Parallel("step", n, func(i int, r *rand.Rand) {
-		kind := []string{"EdDSA", "EdDSA", "EdDSA", "EdDSA", "ES512", "PS512", "ES256-signer", "EdDSA"}[i%8]
+		kind := []string{"EdDSA", "EdDSA", "EdDSA", "EdDSA", "ES512", "PS512", "ES256-signer", "EdDSA"}[mix(i, 1, 8)]
 		kp, other := all[kind][0], all[kind][1]
 		okName := "EdDSA"
 		if kind == "EdDSA" {
@@ -581,7 +581,7 @@ func checkC01(c *run.Ctx) {
 			otherKind = all["ES256-signer"][1]
 			other = all["ES256-signer"][1]
 		}
-		sc, err := genSignCase(r, i%2 == 0, i%3 != 0)
+		sc, err := genSignCase(r, mix(i, 2, 2) == 0, mix(i, 3, 3) != 0)
 		if err != nil {
 			c.Count("generator_errors", 1)
 			return
